@@ -80,11 +80,10 @@ class Patches:
 
         indexing = self.base.indexing
 
+        # NOTE: Use integer arithmetic. Converting the metric patch size back to voxels,
+        # ceil((D / n) / (D / nv)), may round up by one for unlucky dimensions D.
         patch_dimensions_voxels = [
-            self.base.coordinatesystem.num_voxels(
-                length=patch_dimensions_metric[i],
-                axis=darsia.to_cartesian_indexing(i, indexing),
-            )
+            ceil(self.base.num_voxels[i] / self.num_patches[i])
             for i in range(self.num_active_spatial_axes)
         ]
 
